@@ -222,6 +222,11 @@ static void build_tables()
         }
         // one non-ASCII text (1-, 2-, 3- and 4-byte sequences); only used where no byte-level cut can fall inside it
         g_vals.push_back(text_val(t, U"h\u00e9\u20ac\U0001F600"));
+        // embedded NUL: every argument type that carries its own length must render all of its units
+        if (t != T_CSTR && t != T_WCSTR && t != T_U16CSTR && t != T_U32CSTR && t != T_U8CSTR) {
+            g_vals.push_back(text_val(t, std::u32string(U"ab\0cd", 5)));
+            g_vals.push_back(text_val(t, std::u32string(U"\0", 1)));
+        }
     }
 }
 
@@ -511,6 +516,107 @@ static std::string describe_single(const Val &v, const Opt &q)
                 describe_val(v).c_str(), WN[q.w], nat);
 }
 
+
+// ------------------------------------------------------------------ a field that names two pad items
+// "{08_*}" / "{_*08}": the statement does not say which of the two pad items wins, but whichever does, the
+// rendering is that of the field with the other item removed.  Anything else (e.g. the '*' placed between sign
+// and digits) is neither.
+static const char *const PO_ITEM[4] = {"0", "_*", "_0", "_-"};
+static const char *const PO_CLASS[5] = {"", "d", "x", "o", "b"};
+struct PadOver {
+    unsigned i1, i2, wpos, a, h, s, c, w, v;
+};
+static std::vector<Val> g_po_vals;
+static uint64_t padover_count() { return (uint64_t)4 * 4 * 2 * 3 * 2 * 2 * 5 * 3 * g_po_vals.size(); }
+static PadOver decode_padover(uint64_t i)
+{
+    PadOver q;
+    q.i1 = (unsigned)vf::take(i, 4);
+    q.i2 = (unsigned)vf::take(i, 4);
+    q.wpos = (unsigned)vf::take(i, 2);
+    q.a = (unsigned)vf::take(i, 3);
+    q.h = (unsigned)vf::take(i, 2);
+    q.s = (unsigned)vf::take(i, 2);
+    q.c = (unsigned)vf::take(i, 5);
+    q.w = (unsigned)vf::take(i, 3);
+    q.v = (unsigned)vf::take(i, g_po_vals.size());
+    return q;
+}
+// keep: bit 0 = first item written, bit 1 = second item written
+static std::string padover_text(const PadOver &q, long long width, unsigned keep)
+{
+    std::string A = q.a == 1 ? "<" : q.a == 2 ? ">" : "";
+    std::string W = std::to_string(width);
+    std::string f = "{" + A + (q.h ? "#" : "") + (q.s ? "+" : "");
+    if (keep & 1) f += PO_ITEM[q.i1];
+    if (q.wpos == 0) f += W;
+    if (keep & 2) f += PO_ITEM[q.i2];
+    if (q.wpos == 1) f += W;
+    return f + PO_CLASS[q.c] + "}";
+}
+static bool padover_valid(const PadOver &q)
+{
+    if (q.i1 == q.i2) return false;
+    // a '0' flag written directly in front of / behind the width digits would be read as part of the number
+    if (q.wpos == 0 && q.i2 == 0) return false;   // "W0"
+    if (q.wpos == 1 && q.i2 == 0) return true;    // "...0W": flag then width, fine
+    return true;
+}
+static void run_padover(Ctx &c, const PadOver &q)
+{
+    if (!padover_valid(q)) {
+        VF_COUNT("out:skipped(not-expressible)");
+        return;
+    }
+    const Val &v = g_po_vals[q.v];
+    ref::Arg model = model_of(v);
+    std::string f0 = std::string("{") + (q.h ? "#" : "") + (q.s ? "+" : "") + PO_CLASS[q.c] + "}";
+    ref::Rendered r0 = ref::render(ref::parse(f0), {model});
+    if (r0.outcome != ref::R_TEXT) {
+        VF_COUNT("out:skipped(reference-not-text)");
+        return;
+    }
+    long long nat = (long long)r0.bytes.size();
+    long long width = q.w == 0 ? nat + 1 : q.w == 1 ? nat + 4 : (nat > 0 ? nat : 1);
+    std::string f = padover_text(q, width, 3), f1 = padover_text(q, width, 1), f2 = padover_text(q, width, 2);
+    ref::Parsed pb = ref::parse(f), p1 = ref::parse(f1), p2 = ref::parse(f2);
+    if (pb.status != ref::WELL_FORMED || p1.status != ref::WELL_FORMED || p2.status != ref::WELL_FORMED || pb.pieces.size() != 1 ||
+        !pb.pieces[0].is_field || !pb.pieces[0].spec.strict || pb.pieces[0].spec.width != width || !p1.pieces[0].spec.strict ||
+        p1.pieces[0].spec.overridden || p1.pieces[0].spec.width != width || !p2.pieces[0].spec.strict || p2.pieces[0].spec.overridden ||
+        p2.pieces[0].spec.width != width) {
+        fprintf(stderr, "c11: pad-override builder produced an unintended field %s / %s / %s\n", f.c_str(), f1.c_str(), f2.c_str());
+        _exit(2);
+    }
+    ref::Rendered w1 = ref::render(p1, {model}), w2 = ref::render(p2, {model});
+    if (w1.outcome != ref::R_TEXT || w2.outcome != ref::R_TEXT) {
+        VF_COUNT("out:skipped(reference-not-text)");
+        return;
+    }
+    const char *fp = g_arena.place(f.c_str(), f.size() + 1);
+    ST::string got;
+    vf::Outcome o = vf::guard([&] { got = call1(fp, v); });
+    VF_COUNT("ops");
+    const char *fam = is_int_type(v.type) ? (math_value(v) < 0 ? "int(negative)" : "int(non-negative)") : v.type == T_BOOL ? "bool" : "text";
+    std::string opts = strf("%s-then-%s%s%s%s", PO_ITEM[q.i1], PO_ITEM[q.i2], q.a == 1 ? ",align=left" : q.a == 2 ? ",align=right" : "", q.h ? ",#" : "",
+                            q.s ? ",+" : "");
+    if (!o.ok()) {
+        c.fail(strf("field:two-pad-items:%s:unexpected-%s:%s", fam, out_slug(o).c_str(), opts.c_str()),
+               strf("ST::format(%s, %s) -> %s", vf::vis(f).c_str(), describe_val(v).c_str(), o.str().c_str()));
+        return;
+    }
+    VF_COUNT("validated");
+    std::string g(got.c_str(), got.size());
+    if (g == w1.bytes || g == w2.bytes) {
+        VF_COUNT(w1.bytes == w2.bytes ? "out:two-pad-items:both-readings-equal" : "out:two-pad-items:equals-one-reading");
+        if (w1.bytes != w2.bytes) c.nontrivial();
+        return;
+    }
+    c.fail(strf("field:two-pad-items:%s:neither-reading:%s", fam, opts.c_str()),
+           strf("ST::format(%s, %s) = %s ; with only the first pad item (%s) the specified rendering is %s, with only the second (%s) it is %s",
+                vf::vis(f).c_str(), describe_val(v).c_str(), vf::vis(g).c_str(), vf::vis(f1).c_str(), vf::vis(w1.bytes).c_str(), vf::vis(f2).c_str(),
+                vf::vis(w2.bytes).c_str()));
+}
+
 // ------------------------------------------------------------------ multi-field strings
 static const char *const MF_FIELD[10] = {"{}", "{&1}", "{&2}", "{&3}", "{>5}", "{&1x}", "{<4}", "{&2_*6}", "{#x}", "{.2}"};
 static const char *const MF_LIT[6] = {"", "a", "{{", "}}", "}", "a{{b}}"};
@@ -732,7 +838,8 @@ static void build(vf::Plan &plan, const vf::Opts &o)
                 "(single field) or the string has at least two fields or one field next to a brace escape / lone brace (multi field)";
     plan.assumptions = {
         "reference renderer checked at start-up against libc printf (d/x/X/o with width, +, #, 0, -) and a table taken from the property text",
-        "a field that sets one option twice with different values (or both _C and 0) is not enumerated: which one wins is not specified",
+        "a field that sets one option twice with different values is not enumerated: which one wins is not specified; for a field with two "
+        "different pad items (_C and 0, or _C and _D) the result must equal the specified rendering with one of the two items removed",
         "non-ASCII text is only compared where no precision / width applies (byte vs character counting is not specified)",
         "char8_t with the character class is skipped (documented code-unit pass-through); null C strings are not enumerated",
         "floating-point arguments are C13's; the f/e/E letters are enumerated here only as items that must not disturb other types",
@@ -756,6 +863,21 @@ static void build(vf::Plan &plan, const vf::Opts &o)
     plan.stage(strf("one-field: all 512 signed/unsigned char values x %llu option tuples", (unsigned long long)pers), (uint64_t)g_small.size() * pers,
                [ds, pers](uint64_t i, Ctx &c) { run_single(c, g_small[i / pers], decode_opt(i % pers, ds)); },
                [ds, pers](uint64_t i) { return describe_single(g_small[i / pers], decode_opt(i % pers, ds)); });
+
+    for (long long x : {-1234LL, 1234LL, 0LL, 255LL, -1LL}) g_po_vals.push_back(int_val(T_INT, (uint64_t)x));
+    g_po_vals.push_back(int_val(T_LLONG, (uint64_t)std::numeric_limits<long long>::min()));
+    g_po_vals.push_back(int_val(T_ULLONG, ~uint64_t(0)));
+    g_po_vals.push_back(int_val(T_SCHAR, (uint64_t)(long long)-7));
+    g_po_vals.push_back(int_val(T_BOOL, 1));
+    g_po_vals.push_back(text_val(T_CSTR, U"abc"));
+    g_po_vals.push_back(text_val(T_STSTRING, U"hello"));
+    plan.stage(strf("one-field with two pad items (0/_*/_0/_- in both orders) x align x # x + x class x width x %zu values", g_po_vals.size()),
+               padover_count(), [](uint64_t i, Ctx &c) { run_padover(c, decode_padover(i)); },
+               [](uint64_t i) {
+                   PadOver q = decode_padover(i);
+                   return strf("ST::format(%s with width nat%s, %s)", vf::vis(padover_text(q, 0, 3)).c_str(), q.w == 0 ? "+1" : q.w == 1 ? "+4" : "",
+                               describe_val(g_po_vals[q.v]).c_str());
+               });
 
     for (unsigned k = 0; k <= 3; ++k)
         plan.stage(strf("multi-field: %u field(s) from 10 x literals from 6 x 1..3 arguments", k), multi_count(k, 6),
